@@ -72,6 +72,51 @@ v = v[0]
 v["index"] = 0
 expect_problem("stockobject", replay_stockobject.run_history, v, lambda b: b["hist"][1].__setitem__("driver", 2))
 
+print("1b. binding of the trace specifications: one corrupted field of a recorded trace must lead to REJECTED")
+from harness import trace_driver, trace_massbalance, trace_dimsets
+
+
+def expect_rejection(name, batch, validate, corrupt):
+    acc, rej, _ = validate(batch)
+    assert not rej, f"{name}: an unmodified recorded batch is rejected: {rej}"
+    bad = copy.deepcopy(batch)
+    tid = corrupt(bad)
+    acc, rej, _ = validate(bad)
+    ok = tid in rej and all(t in acc for t in range(1, len(bad["traces"]) + 1) if t != tid)
+    print(f"  {name:12s} corrupted recorded field -> {'REJECTED at event %d: %s' % rej[tid] if tid in rej else 'ACCEPTED (binding broken!)'}"
+          + ("" if ok or tid not in rej else "  (but other traces changed verdict!)"))
+    if not ok:
+        fails.append("trace:" + name)
+
+
+def corrupt_ws(b):
+    for tid, tr in enumerate(b["traces"], start=1):
+        for e in tr["events"]:
+            if e["outcome"] == "ok" and e["op"] in ("add", "mul") and e["post"][e["dst"]]["flat"]:
+                e["post"][e["dst"]]["flat"][0] += 1
+                return tid
+
+
+def corrupt_mb(b):
+    for tid, tr in enumerate(b["traces"], start=1):
+        for e in tr["events"]:
+            if e["op"] == "check_mb":
+                e["outcome"] = "ok" if e["outcome"] == "fail" else "fail"
+                return tid
+
+
+def corrupt_ds(b):
+    for tid, tr in enumerate(b["traces"], start=1):
+        for e in tr["events"]:
+            if e["op"] == "union" and len(e["post"][e["dst"]]["ids"]) >= 2:
+                e["post"][e["dst"]]["ids"].reverse()
+                return tid
+
+
+expect_rejection("workspace", trace_driver.record_batch(0, 6, 12, 5), trace_driver.validate_batch, corrupt_ws)
+expect_rejection("massbalance", trace_massbalance.record_batch(0, 6, 12, 5), trace_massbalance.validate_batch, corrupt_mb)
+expect_rejection("dimsets", trace_dimsets.record_batch(6, 20, 5), trace_dimsets.validate_batch, corrupt_ds)
+
 print("2. non-vacuity: mutated models must violate their properties in TLC")
 
 
